@@ -381,7 +381,8 @@ func (g *layerGen) fill(density int, other *layerGen) {
 			for i := 0; i < n; i++ {
 				refs = append(refs, anyID())
 			}
-			g.add(fmt.Sprintf("c%d", v), strings.Join(refs, ","), "")
+			kf := []string{"p", "t", "m"}[r.Intn(3)] // plain / typed / mixed key IDs
+			g.add(fmt.Sprintf("c%d", v), strings.Join(refs, ","), ";kf="+kf)
 		}
 	}
 }
